@@ -679,3 +679,113 @@ m("C06","plan-start-from-unix","x/storage/keeper/msg_server_buy_storage.go",
 benign("C06","unix-time-normalised-to-utc",[
  ("x/storage/keeper/msg_server_buy_storage.go",'Start:          ctx.BlockTime(),','Start:          time.Unix(ctx.BlockTime().Unix(), int64(ctx.BlockTime().Nanosecond())).UTC(),'),
 ])
+
+benign("C07","remove-owner-side-in-helper",[
+ ("x/storage/keeper/files.go","""	if file.Expires == 0 { // a plan-paid file gives its footprint back to its owner's storage plan
+		payInfo, found := k.GetStoragePaymentInfo(ctx, file.Owner)
+		if found {
+			payInfo.SpaceUsed -= file.FileSize * file.MaxProofs
+			if payInfo.SpaceUsed < 0 {
+				payInfo.SpaceUsed = 0
+			}
+			k.SetStoragePaymentInfo(ctx, payInfo)
+		}
+	}
+
+	k.removeFilePrimary(ctx, merkle, owner, start)
+	k.removeFileSecondary(ctx, merkle, owner, start)
+}
+""","""	k.removeFilePrimary(ctx, merkle, owner, start)
+	k.releaseFromOwner(ctx, file)
+}
+
+// releaseFromOwner drops the owner's listing of the file and gives a plan-paid file's footprint back
+func (k Keeper) releaseFromOwner(ctx sdk.Context, file types.UnifiedFile) {
+	k.removeFileSecondary(ctx, file.Merkle, file.Owner, file.Start)
+	if file.Expires != 0 { // paid for up front, no storage plan to give space back to
+		return
+	}
+	payInfo, found := k.GetStoragePaymentInfo(ctx, file.Owner)
+	if found {
+		payInfo.SpaceUsed -= file.FileSize * file.MaxProofs
+		if payInfo.SpaceUsed < 0 {
+			payInfo.SpaceUsed = 0
+		}
+		k.SetStoragePaymentInfo(ctx, payInfo)
+	}
+}
+"""),
+])
+
+benign("C17","remove-owner-side-in-helper",[
+ ("x/storage/keeper/files.go","""	if file.Expires == 0 { // a plan-paid file gives its footprint back to its owner's storage plan
+		payInfo, found := k.GetStoragePaymentInfo(ctx, file.Owner)
+		if found {
+			payInfo.SpaceUsed -= file.FileSize * file.MaxProofs
+			if payInfo.SpaceUsed < 0 {
+				payInfo.SpaceUsed = 0
+			}
+			k.SetStoragePaymentInfo(ctx, payInfo)
+		}
+	}
+
+	k.removeFilePrimary(ctx, merkle, owner, start)
+	k.removeFileSecondary(ctx, merkle, owner, start)
+}
+""","""	k.removeFilePrimary(ctx, merkle, owner, start)
+	k.releaseFromOwner(ctx, file)
+}
+
+// releaseFromOwner drops the owner's listing of the file and gives a plan-paid file's footprint back
+func (k Keeper) releaseFromOwner(ctx sdk.Context, file types.UnifiedFile) {
+	k.removeFileSecondary(ctx, file.Merkle, file.Owner, file.Start)
+	if file.Expires != 0 { // paid for up front, no storage plan to give space back to
+		return
+	}
+	payInfo, found := k.GetStoragePaymentInfo(ctx, file.Owner)
+	if found {
+		payInfo.SpaceUsed -= file.FileSize * file.MaxProofs
+		if payInfo.SpaceUsed < 0 {
+			payInfo.SpaceUsed = 0
+		}
+		k.SetStoragePaymentInfo(ctx, payInfo)
+	}
+}
+"""),
+])
+
+# ---- round 3 of independent seeded changes (batch 2)
+from_patch("C11","seed3-notification-keys-through-path-join","seeded/C11-notification-keys-through-path-join/patch.diff","C11/R3","notifications.MsgDeleteNotification:own-key","seed round 3")
+from_patch("C12","seed3-gauges-decoded-into-shared-variable","seeded/C12-gauges-decoded-into-shared-variable/patch.diff","C12/R6","decode-target-reused","seed round 3")
+from_patch("C13","seed3-prune-range-over-decimal-keys","seeded/C13-prune-range-over-decimal-keys/patch.diff","C13/R7","ranged-iterator","seed round 3")
+from_patch("C14","seed3-proof-holding-test-open-ended-range","seeded/C14-proof-holding-test-open-ended-range/patch.diff","C14/R7","ranged-iterator","seed round 3")
+from_patch("C15","seed3-shutdown-defaults-to-current-price","seeded/C15-shutdown-defaults-to-current-price/patch.diff","C15/R2","refund-amount","seed round 3")
+from_patch("C16","seed3-tld-recognised-by-substring","seeded/C16-tld-recognised-by-substring/patch.diff","C16/R7","tld-recognised-by-suffix","seed round 3")
+from_patch("C17","seed3-payonce-removal-keeps-owner-listing","seeded/C17-payonce-removal-keeps-owner-listing/patch.diff","C17/R1","Delete-pairs","seed round 3")
+from_patch("C18","seed3-inbox-prefix-without-separator","seeded/C18-inbox-prefix-without-separator/patch.diff","C18/R5","inbox-prefix","seed round 3")
+from_patch("C19","seed3-export-decodes-providers-into-shared-variable","seeded/C19-export-decodes-providers-into-shared-variable/patch.diff","C19/R6","decode-target-reused","seed round 3")
+from_patch("C20","seed3-hash-helper-short-circuits-empty","seeded/C20-hash-helper-short-circuits-empty/patch.diff","C20/R3","splitter","seed round 3")
+benign("C16","tld-suffix-via-hassuffix",[
+ ("x/rns/keeper/utils.go","""		checkingName := name[len(name)-tldSize:]
+
+		if checkingName == tld {
+			return tld, nil
+		}""","""		if strings.HasSuffix(name, tld) {
+			return tld, nil
+		}"""),
+])
+m("C16","validation-copy-recognises-by-prefix","x/rns/types/utils.go",
+  'checkingName := name[len(name)-tldSize:]','checkingName := name[:tldSize]',"C16/R7","tld-recognised-by-suffix")
+benign("C12","gauge-decoded-in-helper",[
+ ("x/storage/keeper/gauges.go","""		var val types.PaymentGauge
+		k.cdc.MustUnmarshal(iterator.Value(), &val)
+
+		fn(val)""","""		fn(k.decodeGauge(iterator.Value()))"""),
+ ("x/storage/keeper/gauges.go","func (k Keeper) IterateGauges(","""func (k Keeper) decodeGauge(bz []byte) types.PaymentGauge {
+	var val types.PaymentGauge
+	k.cdc.MustUnmarshal(bz, &val)
+	return val
+}
+
+func (k Keeper) IterateGauges("""),
+])
